@@ -10,6 +10,7 @@ import MagpyVerif.Lemmas.Level2Shape
 import MagpyVerif.Lemmas.TrimeshInside
 import MagpyVerif.Lemmas.OctaCarrier
 import MagpyVerif.Lemmas.Celv
+import MagpyVerif.Model.Level2State
 namespace MagpyVerif.C06
 open MagpyVerif MagpyVerif.Level2
 variable {G V : Type}
@@ -30,6 +31,82 @@ theorem short_path_stays_at_last_pose {α : Type} (xs : List α) (m : Nat) (h : 
   have : min m (xs.length - 1) = xs.length - 1 := by omega
   rw [this, List.getLast?_eq_getElem?]
 end
+
+/-! ### short paths are EDGE-padded, not tiled cyclically (c03post)
+
+`getBH_level2` fills an object's path up to the longest one with `np.tile(path[-1], (M - m0, 1))` appended
+(`Model/Level2State.tilePath`, the tiling model of C08) and then indexes the tiled arrays with the path index; the
+pipeline model reads `clampGet xs m` directly.  The seeded change `np.resize(path, M)` repeats the path cyclically
+(`Model/Level2.cyclicGet`). -/
+
+/-- **short_paths_edge_padded**: indexing the TILED path of an object (`tilePath M xs`, `M` = longest path, `m < M`) gives
+`clampGet xs m`; and that is `xs[m]` inside the object's own path and its LAST pose at every index `m ≥ len(xs)` — for
+positions and orientations alike (`α` arbitrary), sources and sensors alike -/
+theorem short_paths_edge_padded {α : Type} (xs : List α) (M m : Nat) (hne : xs ≠ []) (hM : xs.length ≤ M)
+    (hm : m < M) :
+    (Level2State.tilePath M xs)[m]? = clampGet xs m ∧
+    (m < xs.length → clampGet xs m = xs[m]?) ∧
+    (xs.length ≤ m → clampGet xs m = xs.getLast?) := by
+  have hpos : 0 < xs.length := List.length_pos_iff.mpr hne
+  refine ⟨?_, ?_, ?_⟩
+  · unfold Level2State.tilePath clampGet
+    obtain ⟨l, hl⟩ : ∃ l, xs.getLast? = some l := by
+      cases h : xs.getLast? with
+      | none => exact absurd (List.getLast?_eq_none_iff.mp h) hne
+      | some l => exact ⟨l, rfl⟩
+    simp only [hl]
+    by_cases h : m < xs.length
+    · have : min m (xs.length - 1) = m := by omega
+      rw [this, List.getElem?_append_left h]
+    · have h1 : min m (xs.length - 1) = xs.length - 1 := by omega
+      rw [h1, List.getElem?_append_right (by omega), List.getElem?_replicate, if_pos (by omega),
+        ← List.getLast?_eq_getElem?, hl]
+  · intro h
+    unfold clampGet
+    have : min m (xs.length - 1) = m := by omega
+    rw [this]
+  · intro h
+    exact short_path_stays_at_last_pose xs m (by omega)
+
+/-- the element computed for path index `m ≥ len(path of s)` is the element for `s`'s LAST path index: source `s` is
+evaluated at its last pose (position AND orientation) -/
+theorem short_path_source_evaluated_at_last_pose [Group G] [AddCommGroup V] [DistribMulAction G V]
+    (s : Src G V) (hlen : s.pos.length = s.ori.length) (m : Nat) (h : s.pos.length ≤ m + 1) (x : V) :
+    level1 s m x = level1 s (s.pos.length - 1) x := by
+  unfold level1
+  rw [short_path_stays_at_last_pose s.pos m h, short_path_stays_at_last_pose s.ori m (by omega),
+    short_path_stays_at_last_pose s.pos (s.pos.length - 1) (by omega),
+    short_path_stays_at_last_pose s.ori (s.pos.length - 1) (by omega)]
+
+/-- **witness: cyclic tiling is a different function** whenever a short path has at least two different poses: for
+`xs = [a, b]` (`a ≠ b`), longest path 3, path index 2: edge padding gives `b` (the last pose), cyclic tiling gives `a` -/
+theorem cyclic_tiling_differs {α : Type} (a b : α) (hab : a ≠ b) :
+    clampGet [a, b] 2 = some b ∧ cyclicGet [a, b] 2 = some a ∧ (Level2State.tilePath 3 [a, b])[2]? = some b ∧
+    cyclicGet [a, b] 2 ≠ clampGet [a, b] 2 := by
+  have h1 : clampGet [a, b] 2 = some b := by simp [clampGet]
+  have h2 : cyclicGet [a, b] 2 = some a := by simp [cyclicGet]
+  refine ⟨h1, h2, by simp [Level2State.tilePath], ?_⟩
+  rw [h1, h2]
+  intro h
+  exact hab (Option.some.inj h)
+
+/-- and they agree exactly on paths of length 1 and on paths of full length — which is why only objects whose own
+path length lies strictly between 1 and the maximum distinguish the two (what the `level2` stream counts as
+`short_multi_step_paths`) -/
+theorem cyclic_tiling_agrees_iff_trivial {α : Type} (xs : List α) (m : Nat) (hne : xs ≠ [])
+    (h : xs.length = 1 ∨ m < xs.length) : cyclicGet xs m = clampGet xs m := by
+  have hpos : 0 < xs.length := List.length_pos_iff.mpr hne
+  unfold cyclicGet clampGet
+  rcases h with h | h
+  · have h1 : m % xs.length = 0 := by rw [h]; exact Nat.mod_one m
+    have h2 : min m (xs.length - 1) = 0 := by omega
+    rw [h1, h2]
+  · have h1 : m % xs.length = m := Nat.mod_eq_of_lt h
+    have h2 : min m (xs.length - 1) = m := by omega
+    rw [h1, h2]
+
+-- non-vacuity: a path of length 2 inside a call of longest path 4
+example : (Level2State.tilePath 4 [10, 20])[3]? = clampGet [10, 20] 3 ∧ clampGet [10, 20] 3 = some 20 := by decide
 
 /-- the value for a pixel is independent of which other sensors are in the call -/
 theorem pixels_independent [Group G] [AddCommGroup V] [DistribMulAction G V] [BEq G]
